@@ -118,6 +118,15 @@ class iterable_loader(DataStreamProcessor):
         dp.descriptor.setdefault('resources', []).append(self.res.descriptor)
         return dp
 
+    def iter_rows(self):
+        try:
+            yield from self.res.iter(keyed=True)
+        except Exception:
+            # report the error of the iterable itself, not the way the schema library wraps it
+            if self.exc is not None:
+                raise self.exc
+            raise
+
     def process_resources(self, resources):
         yield from super(iterable_loader, self).process_resources(resources)
-        yield self.res.iter(keyed=True)
+        yield self.iter_rows()
